@@ -58,3 +58,9 @@ func VHJSONLoad() {
 	c, _ := VGStack()
 	containers.VJSONLoad(vJSON(c))
 }
+
+// VHHistory: D operations in a row from the constructor (see VMapHistory).
+func VHHistory() {
+	s := New[int]()
+	containers.VLinHistory(containers.VLin{Name: "ArrayStack", C: s, Push: s.Push, Pop: s.Pop, Peek: s.Peek, LIFO: true, Inv: func() { v.Assert(s.list != nil, "inv-list") }})
+}
